@@ -213,6 +213,12 @@ class SymInterp:
                 except _Break:
                     break
             return
+        if isinstance(s, ast.Try):
+            # the protected block is interpreted; handlers describe failure paths that the abstract run does not take
+            self.block(s.body, env, fi)
+            self.block(s.orelse, env, fi)
+            self.block(s.finalbody, env, fi)
+            return
         if isinstance(s, ast.Continue):
             raise _Continue()
         if isinstance(s, ast.Break):
@@ -399,6 +405,23 @@ class SymInterp:
                 return a >= b
         if isinstance(e, ast.IfExp):
             return self.ev(e.body if self.ev(e.test, env) else e.orelse, env)
+        if isinstance(e, (ast.GeneratorExp, ast.SetComp)) and len(e.generators) == 1:
+            out = self.ev(ast.copy_location(ast.ListComp(elt=e.elt, generators=e.generators), e), env)
+            return set(out) if isinstance(e, ast.SetComp) else out
+        if isinstance(e, ast.ListComp) and len(e.generators) == 2:
+            g0, g1 = e.generators
+            out = []
+            for x in self.ev(g0.iter, env):
+                e2 = dict(env)
+                self.assign(g0.target, x, e2)
+                if not all(self.ev(c, e2) for c in g0.ifs):
+                    continue
+                for y in self.ev(g1.iter, e2):
+                    e3 = dict(e2)
+                    self.assign(g1.target, y, e3)
+                    if all(self.ev(c, e3) for c in g1.ifs):
+                        out.append(self.ev(e.elt, e3))
+            return out
         if isinstance(e, ast.ListComp) and len(e.generators) == 1:
             g = e.generators[0]
             out = []
@@ -420,7 +443,12 @@ class SymInterp:
                 args.extend(list(self.ev(a.value, env)))
             else:
                 args.append(self.ev(a, env))
-        kwargs = {k.arg: self.ev(k.value, env) for k in e.keywords if k.arg}
+        kwargs = {}
+        for k in e.keywords:
+            if k.arg:
+                kwargs[k.arg] = self.ev(k.value, env)
+            else:
+                kwargs.update(dict(self.ev(k.value, env)))
         if isinstance(f, ast.Name):
             n = f.id
             if n in env and callable(env[n]):
@@ -428,7 +456,7 @@ class SymInterp:
             if n in self.builtins:
                 return self.builtins[n](*args, **kwargs)
             std = {"len": len, "list": list, "tuple": tuple, "enumerate": lambda x: list(enumerate(x)), "range": lambda *a: list(range(*a)), "zip": lambda *a: list(zip(*a)),
-                   "str": lambda x: x if isinstance(x, str) else repr(x), "isinstance": lambda *a: False, "min": min, "max": max, "bool": bool, "int": int, "abs": abs, "slice": slice, "reversed": lambda x: list(reversed(x)), "set": set, "sorted": sorted}
+                   "str": lambda x: x if isinstance(x, str) else repr(x), "isinstance": lambda *a: False, "min": min, "max": max, "bool": bool, "int": int, "abs": abs, "slice": slice, "getattr": getattr, "setattr": setattr, "hasattr": hasattr, "dict": dict, "reversed": lambda x: list(reversed(x)), "set": set, "sorted": sorted}
             if n in std:
                 return std[n](*args)
             if n == "id":
